@@ -223,6 +223,7 @@ class QCC(Ansatz):
         # Track the order in which pauli words have been visited for fast parameter updates
         pauli_words_gates = []
         pauli_words = sorted(qubit_op.terms.items(), key=lambda x: len(x[0]))
+        self.pauli_to_angles_mapping = {}
         for i, (pauli_word, coef) in enumerate(pauli_words):
             pauli_words_gates += exp_pauliword_to_gates(pauli_word, coef)
             self.pauli_to_angles_mapping[pauli_word] = i
